@@ -218,7 +218,7 @@ func init() {
 	fw.Register(&fw.Prop{
 		ID:    "C01",
 		Level: "exploration",
-		Rule: "every program of each grammar profile (expr, plus, assign, control, scope, call, load, comp, fold, escape) of size level n, n = 1, 2, ... (iterative deepening), " +
+		Rule: "every program of each grammar profile (expr, plus, assign, control, scope, call, load, comp, fold, escape, alias, chains) of size level n, n = 1, 2, ... (iterative deepening), " +
 			"rendered to source and executed by the production pipeline and by the reference evaluator under the needed options, all options on, and (every 64th) all 16 combinations of set/while/recursion/top-level control; " +
 			"compared: probe trace with argument values, final globals with aliasing, success/failure and the position of the failing operation; " +
 			"non-trivial = program runs in which at least one probe fired or the program failed",
